@@ -32,8 +32,9 @@ Range(s)          == {s[i] : i \in DOMAIN s}
 Rev(s)            == [i \in 1..Len(s) |-> s[Len(s) + 1 - i]]
 RemoveAt(s, p)    == SubSeq(s, 1, p - 1) \o SubSeq(s, p + 1, Len(s))
 InsertAt(s, p, x) == SubSeq(s, 1, p - 1) \o <<x>> \o SubSeq(s, p, Len(s))
-RECURSIVE Flatten(_)
-Flatten(ss) == IF ss = <<>> THEN <<>> ELSE Head(ss) \o Flatten(Tail(ss))
+\* concatenation of f[1] .. f[n] (f may be a lazily evaluated function: every f[j] is evaluated once)
+RECURSIVE FlatIdx(_, _)
+FlatIdx(f, n) == IF n = 0 THEN <<>> ELSE FlatIdx(f, n - 1) \o f[n]
 
 Entry(a, i, e)        == [as |-> a, in |-> i, eg |-> e, mtu |-> 1400, peers |-> <<>>]
 EntryP(a, i, e, ps)   == [as |-> a, in |-> i, eg |-> e, mtu |-> 1400, peers |-> ps]
@@ -80,10 +81,12 @@ Wins(e2, e) == \/ e2.sc < e.sc
                \/ e2.sc = e.sc /\ e2.peer > e.peer
 AllEdges(soup) == UNION {SegEdges(soup, k) : k \in 1..Len(soup)}
 Edges(soup) ==
-  {e \in AllEdges(soup) :
-     /\ ~\E e2 \in SegEdges(soup, e.seg) : e2.from = e.from /\ e2.to = e.to /\ Wins(e2, e)
-     \* of several identical segments the one with the lowest index represents the key
-     /\ ~\E k2 \in 1..(e.seg - 1) : SegVal(soup, k2) = SegVal(soup, e.seg)}
+  LET \* of several identical segments the one with the lowest index represents the key
+      dup == {k \in 1..Len(soup) : \E k2 \in 1..(k - 1) : SegVal(soup, k2) = SegVal(soup, k)}
+  \* (TLCEval: TLC would otherwise keep the filtered sets lazy and re-run the filter at every use)
+  IN TLCEval(UNION {LET S == TLCEval(SegEdges(soup, k)) IN
+                    {e \in S : ~\E e2 \in S : e2.from = e.from /\ e2.to = e.to /\ Wins(e2, e)}
+                    : k \in (1..Len(soup)) \ dup})
 
 IsNc(soup, e) == soup[e.seg].kind = "nc"
 
@@ -94,14 +97,19 @@ ValidNext(soup, sol, e) ==
     [] OTHER -> FALSE
 
 \* get_paths: breadth first from AS(src); a solution that reaches AS(dst) is final and not extended
-SolutionsE(E, soup, src, dst) ==
+\* edges indexed by their source vertex (computed once per soup)
+IndexByFrom(E) == TLCEval([v \in {e.from : e \in E} |-> TLCEval({e \in E : e.from = v})])
+
+SolutionsX(X, soup, src, dst) ==
   LET Cur(s) == IF s = <<>> THEN AV(src) ELSE s[Len(s)].to
-      Step(front) == UNION {{Append(s, e) : e \in {x \in E : x.from = Cur(s)}} : s \in front}
+      Out(v) == IF v \in DOMAIN X THEN X[v] ELSE {}
+      Step(front) == UNION {{Append(s, e) : e \in Out(Cur(s))} : s \in front}
       Ok(front) == {s \in front : ValidNext(soup, SubSeq(s, 1, Len(s) - 1), s[Len(s)])}
-      l1 == Ok(Step({<<>>}))
-      l2 == Ok(Step({s \in l1 : s[1].to # AV(dst)}))
-      l3 == Ok(Step({s \in l2 : s[2].to # AV(dst)}))
+      l1 == TLCEval(Ok(Step({<<>>})))
+      l2 == TLCEval(Ok(Step({s \in l1 : s[1].to # AV(dst)})))
+      l3 == TLCEval(Ok(Step({s \in l2 : s[2].to # AV(dst)})))
   IN {s \in l1 \cup l2 \cup l3 : s[Len(s)].to = AV(dst)}
+SolutionsE(E, soup, src, dst) == SolutionsX(IndexByFrom(E), soup, src, dst)
 Solutions(soup, src, dst) == SolutionsE(Edges(soup), soup, src, dst)
 
 (***************************************************************************)
@@ -121,10 +129,10 @@ EdgeIfaces(soup, e) ==
             isP  == idx = first /\ e.peer # 0
         IN (IF a.eg # 0 THEN <<<<a.as, a.eg>>>> ELSE <<>>)
            \o (IF inn # 0 /\ (~isSc \/ isP) THEN <<<<a.as, inn>>>> ELSE <<>>)
-      back == Flatten([j \in 1..(L - e.sc) |-> HopIf(L + 1 - j)])
+      back == TLCEval(FlatIdx([j \in 1..(L - e.sc) |-> HopIf(L + 1 - j)], L - e.sc))
   IN IF ConsDir(soup, e) THEN Rev(back) ELSE back
 
-Ifaces(soup, sol) == Flatten([j \in 1..Len(sol) |-> EdgeIfaces(soup, sol[j])])
+Ifaces(soup, sol) == FlatIdx([j \in 1..Len(sol) |-> EdgeIfaces(soup, sol[j])], Len(sol))
 
 Hops(soup, e)     == Len(soup[e.seg].es) - e.sc
 TotalHops(soup, sol) == LET RECURSIVE Sum(_)
@@ -151,11 +159,11 @@ Paths(soup, src, dst) == PathsE(Edges(soup), soup, src, dst)
 
 \* P-layer on the model: a returned path has two interfaces per link and they chain through the ASes
 ChainOk(ifs) == \A k \in 1..(Len(ifs) - 2) : (k % 2 = 0) => ifs[k][1] = ifs[k + 1][1]
-SolConsistent(soup, sol, src, dst) ==
-  LET ifs == Ifaces(soup, sol) IN
+IfsConsistent(soup, sol, ifs) ==
   /\ Len(ifs) = 2 * (TotalHops(soup, sol) - Len(sol) + (IF \E j \in 1..Len(sol) : sol[j].peer # 0 THEN 1 ELSE 0))
   /\ ChainOk(ifs)
   /\ \A k \in 1..Len(ifs) : ifs[k][2] # 0
+SolConsistent(soup, sol, src, dst) == IfsConsistent(soup, sol, Ifaces(soup, sol))
 AllConsistentE(E, soup, src, dst) ==
   src = dst \/ \A s \in SolutionsE(E, soup, src, dst) :
                  (Encodable(soup, s) /\ Ifaces(soup, s) # <<>> /\ ~HasLoops(Ifaces(soup, s))) => SolConsistent(soup, s, src, dst)
